@@ -238,7 +238,8 @@ def _counters(path):
     c = {"solve_ok": 0, "addcal_ok": 0, "addcal_replace": 0,
          "solved_unknown_true": 0, "deleted_held_used": 0, "refused_calls": 0,
          "silent_refused": 0, "multi_store_events": 0, "load_ok": 0,
-         "rect_cal_stored": 0, "types_stored": set()}
+         "rect_cal_stored": 0, "types_stored": set(), "aliased_calls": 0,
+         "refused_state_dependent": 0}
     with open(path) as fp:
         names = {}
         deleted = set()
@@ -261,6 +262,10 @@ def _counters(path):
                     c["silent_refused"] += 1
             if len(ev.get("obs", [])) > 1:
                 c["multi_store_events"] += 1
+            if ev.get("alias") == 1 and ok == 1:
+                c["aliased_calls"] += 1
+            if e == "SetMError" and ev.get("cls") == "set" and ok == 0:
+                c["refused_state_dependent"] += 1
             if e == "NewAlloc" and ok == 1:
                 shapes[ev["n"]] = (ev["type"], ev["rows"], ev["cols"])
             if e == "AddCalibration" and ok == 1 and ev["n"] in shapes:
@@ -382,6 +387,21 @@ def run(ctx, exe, tier, seed, exh_depth=None, rand_cases=None, rand_len=None,
     _validate(ctx, tr, "bulk histories", issues, stats)
     stats["bulk_cases"] = bulk_cases
 
+    # state histories: refusals that depend on the state of the vnacal_new_t
+    # (error model x incomplete S on T16 / U16, set_m_error after such a
+    # standard, clear / set again), aliased string arguments
+    state_cases = 32 if tier == "quick" else 600
+    paths, crashes = common.run_sharded(
+        exe, lambda a, b: ["state", str(seed), str(a), str(b)], state_cases,
+        ctx.work, "cs-state", _case_index, nshards=vlib.NCPU)
+    issues += issues_from_crashes(ctx, crashes, "state histories")
+    stats["crashes"] += len(crashes)
+    for p in paths:
+        common.strip_crashed_episodes(p)
+    tr = common.concat(paths, os.path.join(ctx.work, "cs-state-all.ndjson"))
+    _validate(ctx, tr, "state histories", issues, stats)
+    stats["state_cases"] = state_cases
+
     # shape histories: every type on square and rectangular dimensions with
     # 1..3 frequencies and complex z0, every accessor read explicitly
     paths, crashes = common.run_sharded(
@@ -399,7 +419,8 @@ def run(ctx, exe, tier, seed, exh_depth=None, rand_cases=None, rand_len=None,
     # must not be vacuous on the implementation side either
     need = ["solve_ok", "addcal_ok", "addcal_replace", "solved_unknown_true",
             "deleted_held_used", "silent_refused", "load_ok",
-            "multi_store_events", "rect_cal_stored"]
+            "multi_store_events", "rect_cal_stored", "aliased_calls",
+            "refused_state_dependent"]
     if not stats["crashes"]:
         for k in need:
             if stats["counters"].get(k, 0) == 0:
@@ -422,8 +443,8 @@ def replay(ctx, exe, path):
     parts = cid.split(":")
     if parts[0] == "exh":
         args = ["exh", parts[1], parts[2], str(int(parts[2]) + 1)]
-    elif parts[0] == "bulk":
-        args = ["bulk", parts[1], parts[2], str(int(parts[2]) + 1)]
+    elif parts[0] in ("bulk", "state"):
+        args = [parts[0], parts[1], parts[2], str(int(parts[2]) + 1)]
     elif parts[0] == "shapes":
         args = ["shapes", parts[2], str(int(parts[2]) + 1)]
     else:
